@@ -137,6 +137,8 @@ pub fn run_one(ctx: &mut RunCtx, sc: &Scenario) -> Outcome {
     } else if libc::WIFSIGNALED(status) {
         let sig = libc::WTERMSIG(status);
         oracle::crash_outcome(sc, sig, &data)
+    } else if libc::WEXITSTATUS(status) == EXIT_BUSY_LOOP {
+        oracle::busy_loop_outcome(sc)
     } else if libc::WEXITSTATUS(status) == 7 {
         // the code under test did something the simulator cannot model in this run (see
         // Backend::unsupported): no verdict either way
@@ -178,10 +180,40 @@ fn classify_abort(panics: &[PanicRec]) -> (End, Option<String>) {
 /// configuration of the scenario (Boot.exact): reported as a note of the run
 pub static BOOT_DIFF: std::sync::Mutex<Vec<String>> = std::sync::Mutex::new(Vec::new());
 
+/// set while the simulated world runs (not during the harness's own work before and after it)
+pub static WORLD_RUNNING: std::sync::atomic::AtomicBool = std::sync::atomic::AtomicBool::new(false);
+static XCPU_STAGE: std::sync::atomic::AtomicU64 = std::sync::atomic::AtomicU64::new(0);
+static TICKS_AT_HALF: std::sync::atomic::AtomicU64 = std::sync::atomic::AtomicU64::new(0);
+pub const EXIT_BUSY_LOOP: i32 = 9;
+
+/// Busy-loop watchdog. A loop of the code under test that never ends and contains no scheduling
+/// point cannot be pre-empted by the scheduler; it burns CPU time until the cap. If the world made
+/// no step at all during the second half of the cap (15 s of CPU time - clean runs take
+/// milliseconds between two steps), the child reports that instead of dying silently.
+extern "C" fn on_xcpu(_sig: libc::c_int) {
+    use std::sync::atomic::Ordering::SeqCst;
+    unsafe {
+        if XCPU_STAGE.fetch_add(1, SeqCst) == 0 {
+            TICKS_AT_HALF.store(rt::TICKS.load(SeqCst), SeqCst);
+            let rl = libc::rlimit { rlim_cur: CHILD_CPU_CAP_S, rlim_max: CHILD_CPU_CAP_S + 2 };
+            libc::setrlimit(libc::RLIMIT_CPU, &rl);
+            return;
+        }
+        if WORLD_RUNNING.load(SeqCst) && rt::TICKS.load(SeqCst) == TICKS_AT_HALF.load(SeqCst) {
+            libc::_exit(EXIT_BUSY_LOOP);
+        }
+        libc::signal(libc::SIGXCPU, libc::SIG_DFL);
+        libc::raise(libc::SIGXCPU);
+    }
+}
+
 fn prepare_child(sc: &Scenario, root: &Path, wfd: i32) {
     unsafe {
-        let rl = libc::rlimit { rlim_cur: CHILD_CPU_CAP_S, rlim_max: CHILD_CPU_CAP_S + 2 };
+        // two stages: SIGXCPU after half of the cap notes how far the world has come, SIGXCPU at the
+        // cap compares (see on_xcpu)
+        let rl = libc::rlimit { rlim_cur: CHILD_CPU_CAP_S / 2, rlim_max: CHILD_CPU_CAP_S + 2 };
         libc::setrlimit(libc::RLIMIT_CPU, &rl);
+        libc::signal(libc::SIGXCPU, on_xcpu as usize);
     }
     unsafe {
         // the code under test prints a lot; stdout/stderr must stay open but go nowhere
@@ -353,6 +385,7 @@ pub fn child_main(sc: &Scenario, root: &Path, wfd: i32, trace: bool) -> ! {
     let sc_fin = Arc::new(sc.clone());
     address_space_limit(sc, true);
     let finish: world::Finish = Arc::new(move |report| {
+        WORLD_RUNNING.store(false, std::sync::atomic::Ordering::SeqCst);
         crate::fsmon::undo_outside_creations();
         crate::fsmon::arm(false);
         address_space_limit(&sc_fin, false);
@@ -364,7 +397,9 @@ pub fn child_main(sc: &Scenario, root: &Path, wfd: i32, trace: bool) -> ! {
     if sc.property == "C13" {
         crate::fsmon::arm(true);
     }
+    WORLD_RUNNING.store(true, std::sync::atomic::Ordering::SeqCst);
     run_world(sc, trace, finish);
+    WORLD_RUNNING.store(false, std::sync::atomic::Ordering::SeqCst);
     crate::fsmon::arm(false);
     address_space_limit(sc, false);
     // the world never returns normally (finish() exits); we are here because shuttle gave up
